@@ -302,12 +302,12 @@ class Gen:
         k = r.random()
         if not top and (d <= 0 or k < 0.45):
             return self.bool_(d)
-        m = r.choice([0, 0, 1, 2, 3])
+        m = r.choice([0, 0, 1, 2, 3, 4, 6])
         kind = r.choice(["L", "L", "T", "G", "A1"])
         if kind == "A1":
             xs = [self.nonlit_bool(d - 1) for _ in range(m)]
             return ["A1", [x for x in xs if x is not None]]
-        return [kind] + [self.nest(d - 1) for _ in range(m)]
+        return [kind] + [(["bl", r.random() < 0.6] if r.random() < 0.3 else self.nest(d - 1)) for _ in range(m)]
 
     def int_(self, d):
         r = self.rng
